@@ -15,7 +15,8 @@ RULE = ('correspondence: the real SourceManager (class-level registry reset per 
         '(rebuilt or not = data getters invoked, exception class), list(), default, and per handler the reported and the '
         'persisted fingerprint and which data the served objects derive from are compared with the state-machine model. '
         'Non-trivial = the sequence contains a successful add; distinct by (initial cache states, op sequence). '
-        'Oracle: the clauses of the property checked directly on impl over the full product version x cache state.')
+        'Oracle: the clauses of the property checked directly on impl over the full product version x cache state.'
+        ' Also: cache state "well-formed JSON under the current fingerprint whose body does not decode"; data sets of different versions differ structurally and the content identity covers every type, attribute, effect and buff template served; an add whose data handler raises while rebuilding must leave registry and default untouched.')
 ASSUMPTIONS = [
     'aliases are strings (aliases that are equal as dict keys but of different type are outside the model)',
     'make_default is a bool (the code tests `is True`)',
